@@ -232,7 +232,7 @@ impl Check for C08 {
     }
     fn gen(&self, seed: u64, i: u64, tier: Tier) -> Value {
         let r = Rng::new(crate::harness::case_seed(seed, "C08", i));
-        let setups = Setup::all_basic();
+        let setups = Setup::all_extended();
         let mut setup = setups[(i % setups.len() as u64) as usize].clone();
         // thorough: two passes over all ordered pairs of change classes, once through the CLI
         // and once through the build-script path, both with the standalone configuration
